@@ -146,6 +146,10 @@ class Matcher:
                     return True
                 if isinstance(pat, ast.Name) or isinstance(node, ast.Name):
                     return False
+        # typing.cast(T, x) is x
+        if isinstance(node, ast.Call) and len(node.args) == 2 and not node.keywords and dotted(node.func) in ('cast', 'typing.cast') \
+                and not (isinstance(pat, ast.Call) and dotted(pat.func) in ('cast', 'typing.cast')):
+            return self._m(pat, node.args[1], bind, ebind, enodes)
         # an intermediate variable is transparent: a structured pattern is matched against the
         # definition of a local that has exactly one reaching plain assignment
         if isinstance(node, ast.Name) and isinstance(getattr(node, 'ctx', None), ast.Load) and isinstance(pat, ast.expr) \
